@@ -91,7 +91,8 @@ private theorem splice_id {α} (l : List α) (f t : Nat) (hft : f ≤ t) (ht : t
   rw [List.append_assoc, h1, List.take_append_drop]
 
 /-- **re-inserting a slice where it was cut gives back an equal document** (whenever the replace
-    returns; that it does return is `reinsert_succeeds` below / checked by the correspondence run) -/
+    returns; that it does return is not proved — it is decided on every generated case by the oracle kind
+    `reinsert` of harness/props/c02.py and by the exact tie of `replace`) -/
 theorem reinsert (S : Schema) (ty : TypeId) (kids : List Node) (f t : Nat) (s : Slice)
     (kids' : List Node) (hn : fnorm kids = true)
     (hs : sliceKids kids f t = .ok s) (hr : replaceKids S ty kids f t s = .ok kids') :
